@@ -1,13 +1,47 @@
 ---------------------------- MODULE Trace_Nowiki ----------------------------
 EXTENDS Nowiki, Json, IOUtils
 
-(* V direction: recorded (context, payload, tokenised real output) triples *)
+(* V direction: recorded real outputs, tokenised into characters / entities ("CK" = any     *)
+(* character of the placeholder range), are judged here.                                    *)
+(*   k = "ctx"  (context, payload, output) of one of the one-level contexts                 *)
+(*   k = "nest" (frames, options, payload, output [, written input]) of a nested context    *)
+(* The verdict of a record is "ok" or names what is wrong:                                  *)
+(*   "placeholder"  a placeholder character is left in the output          (statement)      *)
+(*   "payload"      the entity-quoted payload is not in the output where the model says     *)
+(*                  it must be                                              (statement)      *)
+(*   "mismatch"     one-level context: output differs from the required one (statement)      *)
+(*   "frame"        nested: the payload is delivered, the rendering of the frames around it  *)
+(*                  differs from the model                                  (drift)          *)
+(*   "input"        the harness wrote an input that is not the model's      (machinery)      *)
 Recorded == JsonDeserialize(IOEnv.TRACE_FILE)
 VARIABLES i, bad
+
+NWc(c) == <<"<", "n", "o", "w", "i", "k", "i", ">">> \o c \o <<"<", "/", "n", "o", "w", "i", "k", "i", ">">>
+RECURSIVE NInputC(_, _)
+NInputC(fs, c) == IF fs = <<>> THEN NWc(c) ELSE FPre(fs[1]) \o NInputC(Tail(fs), c) \o FPost(fs[1])
+
+JudgeCtx(r, e) ==
+  IF r.out = e /\ Recoverable(r.c) THEN "ok"
+  ELSE IF ~NoPlaceholder(r.out) THEN "placeholder"
+  ELSE "mismatch"
+JudgeNest(r, e, q, must) ==
+  IF "inp" \in DOMAIN r /\ r.inp # NInputC(r.fs, r.c) THEN "input"
+  ELSE IF ~NoPlaceholder(r.out) THEN "placeholder"
+  ELSE IF must /\ ~Contains(r.out, q) THEN "payload"
+  ELSE IF ~Recoverable(r.c) THEN "mismatch"
+  ELSE IF ~Ambiguous(r.fs) /\ r.out # e THEN "frame"
+  ELSE "ok"
+\* (the model's intermediate and final results are bound, so they are evaluated once)
+Judge(r) ==
+  IF r.k = "nest"
+  THEN CHOOSE j \in UNION { { [why |-> JudgeNest(r, e, Quote(r.c), Demand(r.fs, res)), expected |-> e, q |-> Quote(r.c)] : e \in {Fin(res, r.c)} }
+                            : res \in {NRes(r.fs, r.o)} } : TRUE
+  ELSE CHOOSE j \in { [why |-> JudgeCtx(r, e), expected |-> e, q |-> Quote(r.c)] : e \in {Expanded(r.ctx, r.c)} } : TRUE
+
 TInit == i = 1 /\ bad = <<>>
 TNext == /\ i <= Len(Recorded)
-         /\ LET r == Recorded[i] IN
-            bad' = IF r.out = Expanded(r.ctx, r.c) /\ Recoverable(r.c) THEN bad ELSE Append(bad, [i |-> i, expected |-> Expanded(r.ctx, r.c)])
+         /\ \E j \in {Judge(Recorded[i])} :
+              bad' = IF j.why = "ok" THEN bad ELSE Append(bad, [i |-> i, why |-> j.why, expected |-> j.expected, q |-> j.q])
          /\ i' = i + 1
 TSpec == TInit /\ [][TNext]_<<i, bad>>
 Verdict == (i = Len(Recorded) + 1) => PrintT(<<"VERDICT", ToJson([consumed |-> i - 1, bad |-> bad])>>)
